@@ -7,6 +7,10 @@
 #include <time.h>
 #include <string.h>
 #include <stdlib.h>
+#include <signal.h>
+#include <locale.h>
+#include <sys/stat.h>
+#include <unistd.h>
 
 char *__real_ctime(const time_t *t);
 char *__real_asctime(const struct tm *tm);
@@ -28,3 +32,29 @@ struct tm *__wrap_gmtime(const time_t *t) { libc_static_tm_buffer++; return __re
 char *__wrap_strtok(char *s, const char *delim) { libc_static_strtok_state++; return __real_strtok(s, delim); }
 int __wrap_rand(void) { libc_static_rand_state++; return __real_rand(); }
 void __wrap_srand(unsigned int seed) { libc_static_rand_state++; __real_srand(seed); }
+
+/* Process-wide settings: a library routine that changes one of them (even if it puts the old value back) makes
+ * concurrent operations on unrelated objects depend on each other.  Same modelling: one visible write per call. */
+typedef void (*sighandler_fn)(int);
+sighandler_fn __real_signal(int sig, sighandler_fn h);
+int __real_sigaction(int sig, const struct sigaction *act, struct sigaction *old);
+int __real_setenv(const char *name, const char *value, int overwrite);
+int __real_unsetenv(const char *name);
+int __real_putenv(char *s);
+char *__real_setlocale(int cat, const char *loc);
+mode_t __real_umask(mode_t m);
+int __real_chdir(const char *path);
+
+long process_signal_dispositions;
+long process_environment;
+long process_locale;
+long process_umask_cwd;
+
+sighandler_fn __wrap_signal(int sig, sighandler_fn h) { process_signal_dispositions++; return __real_signal(sig, h); }
+int __wrap_sigaction(int sig, const struct sigaction *act, struct sigaction *old) { if (act) process_signal_dispositions++; return __real_sigaction(sig, act, old); }
+int __wrap_setenv(const char *name, const char *value, int overwrite) { process_environment++; return __real_setenv(name, value, overwrite); }
+int __wrap_unsetenv(const char *name) { process_environment++; return __real_unsetenv(name); }
+int __wrap_putenv(char *s) { process_environment++; return __real_putenv(s); }
+char *__wrap_setlocale(int cat, const char *loc) { if (loc) process_locale++; return __real_setlocale(cat, loc); }
+mode_t __wrap_umask(mode_t m) { process_umask_cwd++; return __real_umask(m); }
+int __wrap_chdir(const char *path) { process_umask_cwd++; return __real_chdir(path); }
